@@ -114,6 +114,25 @@ def run(ctx):
     c08._run(ctx, "ens", "small", limit=(400 if ctx.tier == "quick" else None))
     c08._run(ctx, "event", "full", limit=(300 if ctx.tier == "quick" else 3000))
     c08._run(ctx, "pit", "small" if ctx.tier == "quick" else "full")
+    # outputs that threshold the WHOLE arrays (missing cells still in them) into 0/1 events: a missing value is no event and no non-event.
+    # The fss diagram of Diagrams.tla on datasets with missing cells, and the marginal diagram of the probabilistic datasets (after seed C04-h)
+    from harness.checks import c16
+    resd = tlc.run("MC_Diagrams", "MC_Diagrams_C12", tag=ctx.pid + "_diagrams", timeout_s=1500)
+    ctx.add_tlc("MC_Diagrams/C12 (fss on datasets with missing cells)", resd)
+    dcases = [c for c in resd.emitted if c["diagram"] == "fss"]
+    for n, divs in par.pmap(c16._check_chunk, [dcases[i:i + 4] for i in range(0, len(dcases), 4)], chunk=1):
+        ctx.evaluations += n
+        for site, detail, rep in divs:
+            ctx.diverge(site, rep, detail=detail)
+    resp = tlc.run("MC_ProbDiagrams", "MC_ProbDiagrams", tag=ctx.pid + "_prob", timeout_s=1500)
+    ctx.add_tlc("MC_ProbDiagrams (marginal)", resp)
+    pcases = [c for c in resp.emitted if c["diagram"] == "marginal"]
+    for n, divs in par.pmap(c16._check_prob_chunk, [pcases[i:i + 4] for i in range(0, len(pcases), 4)], chunk=1):
+        ctx.evaluations += n
+        for site, known, detail, rep in divs:
+            ctx.diverge(site, rep, as_implemented=known, detail=detail)
+    ctx.traces += len(dcases) + len(pcases)
+    ctx.extra["whole_array_event_diagrams"] = {"fss": len(dcases), "marginal": len(pcases)}
     ctx.traces += len(jobs)
     for o, fmt, enc in [j[:3] for j in jobs]:
         if any("nan" in i["obs"] or "nan" in i["fcst"] for i in o["inputs"]):
